@@ -17,7 +17,7 @@ var stdInitAllow = map[string]bool{
 	"errors": true, "io": true, "unicode/utf8": true, "unicode/utf16": true, "strconv": true,
 	"math": true, "math/bits": true, "strings": true, "bytes": true, "sort": true,
 	"encoding/binary": true, "encoding/base64": true, "unicode": true, "bufio": true,
-	"time": false, "sync": true, "sync/atomic": true, "internal/bytealg": true, "slices": true,
+	"time": true, "sync": true, "sync/atomic": true, "internal/bytealg": true, "slices": true,
 	"internal/stringslite": true, "cmp": true, "hash/crc32": false, "go/token": true,
 	"container/list": true, "math/rand": false, "internal/itoa": true, "unsafe": true,
 	"internal/abi": true, "internal/unsafeheader": true, "internal/byteorder": true,
